@@ -34,6 +34,7 @@ type Cfg struct {
 	Mode    string `json:"mode"`
 	NilMatch bool  `json:"nilmatch"` // callers pass a nil matcher
 	CtxDeadline []int `json:"-"` // per caller: context deadline in units after the start of the run (0 = none)
+	MsgType int    `json:"-"`      // message type of the request (0: the builder's default)
 	CloseErr bool  `json:"-"`      // the connection's Close reports an error (and closes all the same)
 	Log     int    `json:"-"`      // client logging option: 0 none, 1 summary, 2 debug, 3 dropped-packets (v6) / custom logger (v4)
 }
